@@ -24,6 +24,9 @@ pub enum ReadStep {
     /// async: not ready and nobody wakes the task: only the connection's own 90 s timeout ends the wait.
     /// blocking: the socket read timeout fires (TimedOut)
     Stall,
+    /// real (wall-clock) milliseconds pass before the next step: the peer is simply quiet for a while. Invisible to the
+    /// reader; used by the thorough tier only (behaviour keyed on std::time::Instant cannot be seen otherwise)
+    RealPause(u64),
 }
 
 #[derive(Debug, Clone, PartialEq)]
@@ -127,6 +130,10 @@ impl Script {
                 Some(ReadStep::Err(k)) => {
                     self.trace.push(Event::ReadErr(k));
                     return ReadOutcome::Err(k);
+                },
+                Some(ReadStep::RealPause(ms)) => {
+                    std::thread::sleep(std::time::Duration::from_millis(ms));
+                    continue;
                 },
                 Some(ReadStep::Pending) => {
                     if blocking {
@@ -510,7 +517,7 @@ pub fn model_results(mode: &Mode, verify: bool, reads: &[ReadStep], blocking: bo
                     out.push(format!("Err(transient:{k:?})"));
                     continue 'calls;
                 },
-                Some(ReadStep::Pending) => {},
+                Some(ReadStep::Pending) | Some(ReadStep::RealPause(_)) => {},
                 Some(ReadStep::Stall) => {
                     let _ = blocking;
                     out.push("Err(transient:TimedOut)".into());
